@@ -338,6 +338,38 @@ fn check_inst(l: &mut Local, case: &Case, inst: &InstRep, maps: &[Vec<(u64, FnRe
         (Ok(_), Err(e)) => l.violation("instance/evaluate-error", || json!(case), format!("evaluate after substitute failed: {e}")),
         (Err(_), _) => {}
     }
+    // The sampled entry point on the substituted instance: this state and the other state of the
+    // alphabet as two samples, in both orders; every sample's reported state (replaced variables
+    // included) equals that of evaluating its state alone.
+    let pairs: [(u64, f64, f64); 4] = [(1, 0.5, 2.0), (2, -1.0, 0.5), (7, 2.0, -1.0), (8, 2.0, 1.0)];
+    let other: Vec<(u64, f64)> = state.iter().map(|(id, v)| pairs.iter().find(|p| p.0 == *id).map_or((*id, *v), |p| (*id, if *v == p.1 { p.2 } else { p.1 }))).collect();
+    let alone = |st: &[(u64, f64)]| sdk(|| msg.evaluate(&mk_state(st)).map_err(|e| format!("{e:#}"))).ok().and_then(|r| r.ok()).map(|r| r.0);
+    let (Some(a0), Some(a1)) = (alone(state), alone(&other)) else { return };
+    for order in [[0usize, 1], [1, 0]] {
+        l.transitions += 1;
+        let sts = [state.to_vec(), other.clone()];
+        let mut samples = v1::Samples::default();
+        for k in order {
+            samples.add_sample([3u64, 8][k], mk_state(&sts[k]));
+        }
+        let ss = match sdk(|| msg.evaluate_samples(&samples).map_err(|e| format!("{e:#}"))) {
+            Err(p) => return l.violation("instance/evaluate_samples-panic", || json!(case), p),
+            Ok(Err(e)) => return l.violation("instance/evaluate_samples-error", || json!(case), format!("evaluate_samples after substitute failed although evaluate accepts both states: {e}")),
+            Ok(Ok((ss, _))) => ss,
+        };
+        for (k, want) in [(0usize, &a0), (1, &a1)] {
+            let id = [3u64, 8][k];
+            let got = sdk(|| ss.get(id).map_err(|e| format!("{e:#}"))).ok().and_then(|r| r.ok());
+            let bits = |s: &v1::Solution| -> BTreeMap<u64, u64> { s.state.as_ref().map_or_else(BTreeMap::new, |st| st.entries.iter().map(|(k, v)| (*k, v.to_bits())).collect()) };
+            if got.as_ref().map(bits) != Some(bits(want)) || got.as_ref().map(|g| g.objective.to_bits()) != Some(want.objective.to_bits()) {
+                return l.violation(
+                    "instance/evaluate_samples-differs",
+                    || json!(case),
+                    format!("sample {id} (state {:?}): the sample set reports state {:?}, evaluating the state alone {:?}", sts[k], got.as_ref().map(|g| g.state.as_ref().map(|s| s.entries.iter().collect::<BTreeMap<_, _>>())), want.state.as_ref().map(|s| s.entries.iter().collect::<BTreeMap<_, _>>())),
+                );
+            }
+        }
+    }
 }
 
 fn check_log_encode(l: &mut Local, case: &Case, lower: f64, upper: f64, bits: &[f64], x1: f64) {
@@ -651,7 +683,7 @@ pub fn run(ctx: &Ctx) -> Finish {
     ctx.note("dependency_graphs", json!(graphs_total));
     Finish {
         level: "model_checking",
-        rule: "(1) Function::substitute: function family x every replacement map over keys {1,2,7,9} with each entry from 7 replacement shapes incl. an unnormalised one (8^4 maps incl. the empty one; replacements mention other replaced ids to test simultaneity); (1b) long functions (31..100 terms) under four replacement maps; (2) Instance::substitute: instance family (replaced variables with and without finite bounds that the replacement values exceed) x first map (incl. an unnormalised linear replacement) x optional second map (chain) x states, under every iteration order of the dependency map (hook H1), composed instance compared as polynomials and the Solution compared with the original evaluated at the completed state; log_encode->substitute->evaluate on every bit pattern; (3) every dependency graph on n dependents (each sums any subset of {other dependents, itself, a valued variable, a value-less variable}) x every one of the n! iteration orders through the real Instance::evaluate, oracle = Kahn; watchdog turns a hang into a violation".into(),
+        rule: "(1) Function::substitute: function family x every replacement map over keys {1,2,7,9} with each entry from 7 replacement shapes incl. an unnormalised one (8^4 maps incl. the empty one; replacements mention other replaced ids to test simultaneity); (1b) long functions (31..100 terms) under four replacement maps; (2) Instance::substitute: instance family (replaced variables with and without finite bounds that the replacement values exceed) x first map (incl. an unnormalised linear replacement) x optional second map (chain) x states, under every iteration order of the dependency map (hook H1), composed instance compared as polynomials and the Solution compared with the original evaluated at the completed state, and evaluate_samples over two states (both orders) compared with evaluate; log_encode->substitute->evaluate on every bit pattern; (3) every dependency graph on n dependents (each sums any subset of {other dependents, itself, a valued variable, a value-less variable}) x every one of the n! iteration orders through the real Instance::evaluate, oracle = Kahn; watchdog turns a hang into a violation".into(),
         bounds: json!({"graph_n_max_exhaustive": max_n, "graph_n5": "chains/cycles/diamonds/complete DAG", "replacement_keys": keys, "function_family": fs.len()}),
         exhaustive: true,
     }
